@@ -67,14 +67,15 @@ class GCMAlgorithmCustomMotifs(GCMAlgorithm):
 
                 # get the motif id
                 id = next(gen)
-                EdgeList.motif_id.extend([id] * len(es))
 
-                if len(es) == 2:
+                if len(es) == 2 and not isinstance(es[0], (tuple, list)):
                     # if 2-clique tuple annoyingly unpacks ... so re-pack it
+                    EdgeList.motif_id.extend([id])
                     EdgeList.edge_list.extend([es])
                     EdgeList.topologies.extend([self._edge_names[j]()])
 
                 else:
+                    EdgeList.motif_id.extend([id] * len(es))
                     EdgeList.edge_list.extend(es)
                     EdgeList.topologies.extend(self._edge_names[j]())
 
